@@ -160,6 +160,8 @@ def check_invocation(o, built_before, faulted, backend):
             got = [l[6:] for l in content.split("\n") if l.startswith("INPUT ")]
             if got != want_inputs:
                 probs.append(f"job saw inputs {got} instead of {want_inputs}")
+    if compile_ and o["rc"] == 0 and not any(t in BUILD_TOOLS for t in tools):
+        probs.append("asked to build (no -r) and reported success, but no build step ran in this invocation")
     if o["rc"] == 0 and not run and fresh:
         probs.append("-c produced an output")
     return probs
